@@ -1,3 +1,4 @@
+CONSTANT CheckN = FALSE
 INIT Init
 NEXT Next
 CONSTRAINT Mark
